@@ -16,7 +16,9 @@ pub fn prop() -> Prop {
         rule: "trees with finite numbers only (by construction), strings and keys biased to every control \
                character, quote, backslash, DEL, U+2028/9, astral characters, at depth up to 5 (9 thorough); \
                sweep: each code point U+0000-U+009F, the last code points of each UTF-8 length, U+2028/9 and \
-               the surrogate-adjacent ones placed into a value and into a key. Both renderings are judged by \
+               the surrogate-adjacent ones placed into a value and into a key; offsets: a 2-, 3- or 4-byte character, \
+               U+2028, or one next to a character that must be escaped, at every byte offset 0..=300 of a plain \
+               string used as value, key and later sibling (enumerated). Both renderings are judged by \
                two independent strict parsers (reference, serde_json), compared with the original document, \
                re-parsed by the library and re-encoded; the pretty form is compared with the compact one after \
                deleting whitespace outside string literals and its indentation is checked line by line. \
